@@ -2,11 +2,16 @@
   Saltpack.Model.Classify — classify_and_decrypt.go: `IsSaltpackBinarySlice`,
   `IsSaltpackArmoredPrefix` (its three regular expressions re-implemented as
   recognisers), and `ClassifyStream` as a function of what `bufio.Peek` shows.
+  The three fields the binary classifier decodes through go-codec are read with
+  the typed decoders of `Model/Codec.lean` (not with the generic parser of
+  `Msgpack.lean`, which rejected what go-codec accepts: a format name written as
+  an array of small ints, a version in map form, a nil mode …).
   Core Lean only.
 -/
 import Saltpack.Model.Armor
 import Saltpack.Model.Msgpack
 import Saltpack.Model.Packets
+import Saltpack.Model.Codec
 
 namespace Saltpack.Classify
 open Saltpack Msgpack
@@ -23,6 +28,44 @@ def minLen : Nat := Gen.c_sp_minLengthToIdentifyBinarySaltpack.toNat
 
 def isMode (t : Int) : Bool := t == mtEncryption || t == mtSigncryption || t == mtAttached || t == mtDetached
 
+/-! ### the binary classifier
+
+`IsSaltpackBinarySlice` skips the bin tag and the array tag by hand and then makes
+three go-codec calls on the rest, `Decode(&formatName)` (a `string`),
+`Decode(&version)` (the `toarray` struct `Version`), `Decode(&msgType)`
+(`MessageType`, an `int`).  They are go-codec's TYPED decoders, mirrored in
+`Model/Codec.lean` (`MustDecode`: nil leaves the zero value; `DecodeString` =
+`DecodeBytes`: bin, str, or an ARRAY of unsigned ints ≤ 255; `kStruct`: array with
+missing fields zero and surplus elements swallowed, or a map keyed by the codec
+names; `DecodeInt64`: every integer family, `uint64 → int64` wraps).  Any decode
+error is "not a saltpack message". -/
+
+/-- `decoder.Decode(&formatName)` -/
+def decName : Codec.Dec Bytes := Codec.decBytesTop
+
+/-- `decoder.Decode(&version)` (`version` is the zero `Version` before) -/
+def decVersionTop : Codec.Dec Version := Codec.topStruct (fun _ _ => Codec.versionFields) ⟨0, 0⟩
+
+/-- `decoder.Decode(&msgType)` (reflection `kInt`: `DecodeInt64`, 64 bits) -/
+def decMode : Codec.Dec Int := do
+  if (← Codec.tryNil) then pure 0 else Codec.decodeInt64
+
+/-- a decode step of the classifier: any go-codec error is "not saltpack" -/
+def step {α : Type} (why : String) (r : Except Codec.DErr (α × Bytes)) (k : α → Bytes → Verdict (Int × Version)) :
+    Verdict (Int × Version) :=
+  match r with
+  | .ok (a, rest) => k a rest
+  | .error (.unmodelled _) => .unmodelled why      -- `Codec` does not claim to know (reason: see `Codec`)
+  | .error _ => .notSaltpack
+
+/-- what `IsSaltpackBinarySlice` makes of the bytes after the two tags -/
+def binBody (rest : Bytes) : Verdict (Int × Version) :=
+  step "format name shape" (decName rest) fun fn r1 =>
+    if fn != Gen.c_sp_FormatName then .notSaltpack
+    else step "version shape" (decVersionTop r1) fun ver r2 =>
+      step "message type shape" (decMode r2) fun t _ =>
+        if isMode t then .ok (t, ver) else .notSaltpack
+
 /-- `IsSaltpackBinarySlice` -/
 def binarySlice (b : Bytes) : Verdict (Int × Version) :=
   if b.length < minLen then .short
@@ -36,36 +79,7 @@ def binarySlice (b : Bytes) : Verdict (Int × Version) :=
       let askip? : Option Nat := if 0x93 ≤ a ∧ a ≤ 0x9f then some 1 else if a = 0xdc then some 3 else if a = 0xdd then some 5 else none
       match askip? with
       | none => .notSaltpack
-      | some askip =>
-        let rest := b.drop (skip + askip)
-        match parse1 rest with
-        | .error _ => .notSaltpack
-        | .ok (fn, r1) =>
-          match fn with
-          | .str s | .bin s =>
-            if s != Gen.c_sp_FormatName then .notSaltpack
-            else match parse1 r1 with
-              | .error _ => .notSaltpack
-              | .ok (ver, r2) =>
-                match ver with
-                | .arr (.int ma :: .int mi :: _) =>
-                  match parse1 r2 with
-                  | .error _ => .notSaltpack
-                  | .ok (.int t, _) => if isMode t then .ok (t, ⟨ma, mi⟩) else .notSaltpack
-                  | .ok (.bool _, _) => .notSaltpack
-                  | .ok (.str _, _) => .notSaltpack
-                  | .ok (.bin _, _) => .notSaltpack
-                  | .ok _ => .unmodelled "message type shape"
-                | .int _ => .notSaltpack
-                | .bool _ => .notSaltpack
-                | .str _ => .notSaltpack
-                | .bin _ => .notSaltpack
-                | _ => .unmodelled "version shape"
-          | .int _ => .notSaltpack
-          | .bool _ => .notSaltpack
-          | .arr _ => .notSaltpack
-          | .map _ => .notSaltpack
-          | _ => .unmodelled "format name shape"
+      | some askip => binBody (b.drop (skip + askip))
 
 /-! ### the armored prefix classifier -/
 
